@@ -3,7 +3,9 @@
 //@ kind B
 //@ def quick BS=3 NMAX=8
 //@ def thorough BS=4 NMAX=20
-//@ cbmc all --unwind 23 --unwinding-assertions --object-bits 10
+//@ cbmc all --unwinding-assertions --object-bits 10
+//@ cbmc quick --unwind 10
+//@ cbmc thorough --unwind 23
 //@ replace XMLString_sizeToText
 //@ entry h_ser_rawbytes
 //@ note B (bounded stand-in, not a proof for all sizes): buffer size fBufSize = BS (quick 3, thorough 4; one static object of exactly BS bytes), every initial fill level 0..BS, every length n <= NMAX bytes (quick 8, thorough 20; half as many XMLCh for the wide variants), every content: with these bounds each branch of the chunking code is taken (fits / fill up + flush / k >= 1 whole chunks / remainder / no remainder); loops fully unwound with unwinding assertions. Unbounded n would need loop contracts over the tape; out of budget
